@@ -597,14 +597,18 @@ func runC09(rc *fw.RunCtx) {
 		envCheck = envTemplate
 		hostMap := map[string]any{"hostval": 41}
 		hostMapCheck = hostMap
-		const plain = `os.setenv("TOKEN", "mine"); [math.sqrt(16.0), strings.repeat("ab", 2), math.abs(-3), math.PI > 3.1, hostval + 1, rand.intn(10) < 10, rand.float() < 1.0, len(rand.shuffle([1, 2, 3])), os.getenv("MODE"), os.getenv("TOKEN"), len(os.environ())]`
+		// (patterns no earlier run of this process has compiled; a module of the
+		// tenants' common source directory that uses a host global)
+		nonce := g.Intn(1000000)
+		denvDir := c09DenvDir()
+		plain := fmt.Sprintf(`os.setenv("TOKEN", "mine"); import denvmod; nre := 0; for i := 0; i < 6; i++ { if regexp.match("^a{" + string(i + 1) + ",}(x%dy)?$", "aaaaaaa") { nre++ } }; [math.sqrt(16.0), strings.repeat("ab", 2), math.abs(-3), math.PI > 3.1, hostval + 1, rand.intn(10) < 10, rand.float() < 1.0, len(rand.shuffle([1, 2, 3])), os.getenv("MODE"), os.getenv("TOKEN"), len(os.environ()), nre, denvmod.hv()]`, nonce)
 		for i, n := 0, g.Range(1, 3); i < n; i++ {
-			denv = append(denv, &denvEval{src: plain, want: `[4, "abab", 3, true, 42, true, true, 3, "prod", "mine", 3]`, opts: []risor.Option{risor.WithGlobals(hostMap), risor.WithConcurrency(), risor.WithOS(ros.NewVirtualOS(ctx, ros.WithEnvironment(envTemplate)))}, out: &EvalOutcome{}})
+			denv = append(denv, &denvEval{src: plain, want: `[4, "abab", 3, true, 42, true, true, 3, "prod", "mine", 3, 6, 42]`, opts: []risor.Option{risor.WithGlobals(hostMap), risor.WithConcurrency(), risor.WithLocalImporter(denvDir), risor.WithOS(ros.NewVirtualOS(ctx, ros.WithEnvironment(envTemplate)))}, out: &EvalOutcome{}})
 		}
 		sandbox := &denvEval{
-			src:  `os.setenv("MODE", "debug"); os.setenv("TOKEN", "secret-of-the-sandbox"); [try(func() { return math.sqrt(4.0) }, func(e) { return "denied" }), try(func() { return strings.repeat("x", 2) }, func(e) { return "denied" }), math.abs(-3), math.PI, added, os.getenv("MODE")]`,
-			want: `["denied", "denied", 3, 3, 5, "debug"]`,
-			opts: []risor.Option{risor.WithGlobals(hostMap), risor.WithConcurrency(), risor.WithOS(ros.NewVirtualOS(ctx, ros.WithEnvironment(envTemplate))), risor.WithoutGlobals("math.sqrt", "strings.repeat", "hostval"), risor.WithGlobalOverride("math.PI", 3), risor.WithGlobal("added", 5)},
+			src:  `os.setenv("MODE", "debug"); os.setenv("TOKEN", "secret-of-the-sandbox"); [try(func() { return math.sqrt(4.0) }, func(e) { return "denied" }), try(func() { return strings.repeat("x", 2) }, func(e) { return "denied" }), math.abs(-3), math.PI, added, os.getenv("MODE"), func() { import denvplain; return denvplain.seven() }()]`,
+			want: `["denied", "denied", 3, 3, 5, "debug", 7]`,
+			opts: []risor.Option{risor.WithGlobals(hostMap), risor.WithConcurrency(), risor.WithLocalImporter(denvDir), risor.WithOS(ros.NewVirtualOS(ctx, ros.WithEnvironment(envTemplate))), risor.WithoutGlobals("math.sqrt", "strings.repeat", "hostval"), risor.WithGlobalOverride("math.PI", 3), risor.WithGlobal("added", 5)},
 			out:  &EvalOutcome{},
 		}
 		at := g.Intn(len(denv) + 1)
@@ -799,4 +803,29 @@ func runC09(rc *fw.RunCtx) {
 			rc.Hit("probe_clone_call_while_original_runs")
 		}
 	}
+}
+
+var (
+	c09DenvOnce sync.Once
+	c09DenvPath string
+)
+
+// c09DenvDir is the source directory the default-environment tenants share.
+func c09DenvDir() string {
+	c09DenvOnce.Do(func() {
+		base := goos.Getenv("VERIF_OUT")
+		if base == "" {
+			base = goos.TempDir()
+		} else {
+			base = dirOf(base)
+		}
+		d, err := goos.MkdirTemp(base, "c09denv-")
+		if err != nil {
+			panic("harness: " + err.Error())
+		}
+		goos.WriteFile(d+"/denvmod.risor", []byte("func hv() { return hostval + 1 }\n"), 0o644)
+		goos.WriteFile(d+"/denvplain.risor", []byte("func seven() { return 7 }\n"), 0o644)
+		c09DenvPath = d
+	})
+	return c09DenvPath
 }
